@@ -324,7 +324,8 @@ def check_factories(ctx):
                     if meth == "permutation" and x == a[1]:
                         # default domain: only a MISSING domain (None) is replaced; an explicitly given empty domain is falsy and must reach the length check
                         v = st.value
-                        okd = isinstance(v, ast.IfExp) and shape.key(v.test) in (shape.key(shape.parse("%s is None" % x)), shape.key(shape.parse("%s is not None" % x)))
+                        okd = isinstance(v, ast.IfExp) and ((shape.key(v.test) == shape.key(shape.parse("%s is None" % x)) and ast.unparse(v.orelse) == x and x not in {n_.id for n_ in ast.walk(v.body) if isinstance(n_, ast.Name)}) or
+                                                            (shape.key(v.test) == shape.key(shape.parse("%s is not None" % x)) and ast.unparse(v.body) == x and x not in {n_.id for n_ in ast.walk(v.orelse) if isinstance(n_, ast.Name)}))
                         ctx.ob("R10.4", "%s.%s:default-domain" % (k.q, meth), okd, found=ast.unparse(st), required="`%s` is replaced by the default only when it is None (not when it is empty)" % x,
                                mod=k.mod, node=st, sig="default-dom")
                         continue
